@@ -55,7 +55,7 @@ pub fn cases(thorough: bool) -> Vec<Case> {
         let nested = format!("{}1{}", o.repeat(depth), cl.repeat(depth));
         v.push(c(&format!("json:nesting={}", if depth <= 128 { "<=128" } else { ">128" }), Cmd::new(&["hash", "typeddata", "-"]).stdin(format!("{{\"types\":{{\"EIP712Domain\":[{{\"name\":\"name\",\"type\":\"string\"}}],\"M\":[{{\"name\":\"x\",\"type\":\"uint8[]\"}}]}},\"primaryType\":\"M\",\"domain\":{{\"name\":\"n\"}},\"message\":{{\"x\":{nested}}}}}").as_bytes())));
         v.push(c(&format!("json:nesting={}", if depth <= 128 { "<=128" } else { ">128" }), Cmd::new(&["hash", "transaction", "-"]).stdin(format!("{{\"nonce\":{nested},\"gasPrice\":1,\"gas\":1,\"value\":1,\"data\":\"0x\",\"chainId\":1}}").as_bytes()))); } }
-    for ty in ["", " ", "[]", "[", "]", "uint256[", "uint256[-1]", "uint256[18446744073709551616]", "uint8[999999]", "bytes4294967297", "uint99999999999", "W", "W[]", "EIP712Domain", "\u{ff11}"] {
+    for ty in ["", " ", "[]", "[", "]", "uint256[", "uint256[-1]", "uint256[18446744073709551616]", "uint8[999999]", "uint256[4294967296]", "uint256[1099511627776]", "uint256[576460752303423487]", "uint256[576460752303423488]", "uint256[9223372036854775808]", "uint256[18446744073709551615]", "bytes4294967297", "uint99999999999", "W", "W[]", "EIP712Domain", "\u{ff11}"] {
         let mut d = mail_doc(); d.types.push(("W".into(), vec![("x".into(), ty.to_string())])); d.primary = "W".into(); d.message = J::obj(vec![("x", J::Arr(vec![]))]);
         v.push(c("typeddata:odd-type-name", Cmd::new(&["sign", "--mnemonic", GANACHE, "typeddata", "-"]).stdin(d.to_json().to_text().as_bytes()))); }
     // hex input, files, generic argv
@@ -68,7 +68,7 @@ pub fn cases(thorough: bool) -> Vec<Case> {
     for p in &prefixes { for j in ["0", "1", "2", "16", "64"] { if p.len() == 5 && j != "16" && !thorough { continue; }
         v.push(Case { class: format!("vanity:digits={},j={j}", p.len().saturating_sub(2)), cmd: Cmd::new(&["new", "--vanity-prefix", p, "-j", j]).timeout(240), shim: Some(Mode::Stream { seed: 31, fail_at: Some(if p.len() >= 5 { 60000 } else { 6000 }) }) }); } }
     for j in ["0", "1", "2", "16"] { for a in [vec!["--vanity-account-index", "4294967296"], vec!["--vanity-account-index", "2147483648"], vec!["--vanity-account-index", "18446744073709551615"], vec!["--vanity-hd-path", "m/x"], vec!["--vanity-hd-path", "m/2147483648'"], vec!["--vanity-hd-path", ""], vec!["--vanity-account-index", "1", "--vanity-hd-path", "m/0"]] {
-        let mut cmd = Cmd::new(&["new", "--vanity-prefix", "0x1", "-j", j]).timeout(60); for x in &a { cmd = cmd.arg(x); }
+        let mut cmd = Cmd::new(&["new", "--vanity-prefix", "0x1", "-j", j]).timeout(15); for x in &a { cmd = cmd.arg(x); }
         v.push(Case { class: format!("vanity:bad-account-selector,j={j}"), cmd, shim: Some(Mode::Stream { seed: 32, fail_at: Some(2000) }) }); } }
     for j in ["-1", "x", "", "1.5", "64"] { v.push(Case { class: "vanity:worker-count".into(), cmd: Cmd::new(&["new", "--vanity-prefix", "0x1", "-j", j]).timeout(120), shim: Some(Mode::Stream { seed: 33, fail_at: Some(3000) }) }); }
     v
